@@ -49,6 +49,8 @@ def action_steps(B, text):
             if not (term == 10 or (term is None and last == 10)):
                 unterminated.append((term, last))
     action_steps.unterminated = unterminated
+    # framed mode: every write of a printer must go through the frame procedure (payload, separator, tag)
+    action_steps.unframed = [e for e in ev if (not plain) and e["kind"] == "record"]
     i = 0
     while i < len(ev):
         e = ev[i]
@@ -185,6 +187,13 @@ def run(ctx, rep, tier):
                               "in a newline: the stream does not split into complete terminated lines" % text, dict(input=text))
             else:
                 rep.inconclusive.append("unterminated plain-mode record for %r does not reproduce natively" % text)
+        if action_steps.unframed:
+            d = B.ctx.run_native([text], "debug")[0]
+            if d.get("iomap", "none") != "none" and "make-printer" in d.get("scheme", ""):
+                rep.violation("unframed-record", "%r is compiled in framed mode but one of its printers writes its records directly (make-printer) instead of "
+                              "through the frame procedure: the stream does not split into whole frames" % text, dict(input=text))
+            else:
+                rep.inconclusive.append("unframed record in framed mode for %r does not reproduce natively" % text)
         if lock_order_cycle(calls):
             rep.violation("deadlock", "%r: printers take mutexes in conflicting orders" % text, dict(input=text))
         for T_, c_ in shapes:
